@@ -5,7 +5,7 @@
 # through the development override, write seeded/<name>/regress.txt. /repo is not touched.
 set -u
 WT=/tmp/confirm-wt
-declare -A EXTRA=( [C15-m2]="C16" [C18-m2]="C17" [C08-m1]="C09" [C17-r2m2]="C29" [C08-r2m1]="C09" [C08-r2m2]="C09" )
+declare -A EXTRA=( [C15-m2]="C16" [C18-m2]="C17" [C08-m1]="C09" [C17-r2m2]="C29" [C08-r2m1]="C09" [C08-r2m2]="C09" [C19-r2m2]="C09" )
 export CARGO_NET_OFFLINE=true
 [ -d $WT ] || git -C /repo worktree add --detach $WT HEAD >/dev/null 2>&1
 names="$*"; [ -z "$names" ] && names=$(ls /verif/seeded)
